@@ -22,7 +22,7 @@ LEVEL_TEXT = (
     "- enumeration of the fault points of a sampled scenario, not of all scenarios. Safety invariants are checked after every "
     "iteration, stop/cleanup/liveness clauses over the recorded history. Evidence, not proof."
 )
-RUNS = {"quick": 160, "thorough": 3000}
+RUNS = {"quick": 2400, "thorough": 3000}
 CHUNK = {"quick": 4, "thorough": 8}
 BUDGET_S = {"quick": 90, "thorough": 1500}
 RULE = (
